@@ -7,3 +7,5 @@ import libaudit "github.com/elastic/go-libaudit/v2"
 const HooksEnabled = false
 
 func newRealNetlink(sock *simSocket, pid uint32, buf []byte) *libaudit.NetlinkClient { return nil }
+
+func resetCoalesceGlobals() {}
